@@ -54,6 +54,9 @@ def make_case(seed: int, tier: str, prop: str, opts=None) -> Dict[str, Any]:
     elif fam == 19 and not force:
         sc = gen.gen_twopath(seed, tier)
     else:
+        if prop == "C03":
+            # C03 attributes every input value to the production it came from: values must be unique
+            force["none_values"] = False
         sc = gen.gen_core(seed, tier, force=force or None,
                           transport_mix=opts.get("transport_mix", "mixed"))
     if prop == "C10":
